@@ -24,6 +24,13 @@ var (
 
 // scripted lexer: up to c16Max symbolic tokens drawn on demand, then Eof forever
 func VerifC16NextToken(ls *lexer.LexState) *token.Token {
+	if c16Scripted {
+		if c16Pos < len(c16Script) {
+			c16Pos++
+			return c16Script[c16Pos-1].tk
+		}
+		return &token.Token{T: token.Eof, Line: 1}
+	}
 	if c16Pos >= c16Max || !vapi.Bool("more") {
 		c16Pos = c16Max
 		return &token.Token{T: token.Eof, Line: 1}
@@ -63,10 +70,16 @@ func c16Token() (*token.Token, string) {
 func c16Parse(maxTokens int) {
 	c16Max = maxTokens
 	c16Pos = 0
+	c16Scripted = false
 	opt := &options.Options{}
 	defer func() {
-		// a panic carrying a message is tars2go's diagnostic (Gen recovers, prints it and exits)
-		_ = recover()
+		// a panic carrying a message is tars2go's diagnostic (Gen recovers, prints it and exits);
+		// anything else (a Go run-time error) is a crash and is passed on
+		if r := recover(); r != nil {
+			if _, isDiag := r.(string); !isDiag {
+				panic(r)
+			}
+		}
 	}()
 	var data []byte
 	if !vapi.Engine() {
